@@ -11,7 +11,7 @@
 //!
 //! Output, in execution order:
 //!   3 e now            handler of event e starts (now = SimTime::now())
-//!   2 task now         task polled
+//!   2 task woken now   task polled; woken = SimTime::now() when it was spawned / its waker was last invoked
 //!   1 task now         task completed one op of its script (Recv/Join/Yield: when the await returned)
 //!   4 pl pr left       closes an event: polls of local tasks, polls of rt tasks during the event's
 //!                      block_on, left = 1 iff some task was woken/spawned and not yet polled when it returned
@@ -56,6 +56,7 @@ struct Shared {
     handles: Mutex<Vec<Option<JoinHandle<()>>>>,
     local: Vec<bool>,
     pending: Vec<AtomicBool>,
+    woken: Vec<AtomicU64>,
     polls_local: AtomicU64,
     polls_rt: AtomicU64,
     open: AtomicBool,
@@ -94,6 +95,7 @@ impl Wake for TaskWaker {
     }
     fn wake_by_ref(self: &Arc<Self>) {
         self.sh.pending[self.id].store(true, SeqCst);
+        self.sh.woken[self.id].store(now(), SeqCst);
         self.inner.wake_by_ref();
     }
 }
@@ -116,7 +118,7 @@ impl Future for Wrapped {
         } else {
             sh.polls_rt.fetch_add(1, SeqCst);
         }
-        sh.rec(2, id as u64, now());
+        sh.log.lock().unwrap().extend([2, id as u64, sh.woken[id].load(SeqCst), now()]);
         let w: Waker = Arc::new(TaskWaker { id, sh, inner: cx.waker().clone() }).into();
         let mut cx2 = Context::from_waker(&w);
         self.inner.as_mut().poll(&mut cx2)
@@ -173,6 +175,7 @@ impl Module for ScriptModule {
                         inner: Box::pin(body(t, self.tasks[t].clone(), rx, self.sh.clone())),
                     };
                     self.sh.pending[t].store(true, SeqCst);
+                    self.sh.woken[t].store(now(), SeqCst);
                     let h = if self.sh.local[t] { tokio::task::spawn_local(fut) } else { tokio::spawn(fut) };
                     self.sh.handles.lock().unwrap()[t] = Some(h);
                 }
@@ -218,6 +221,9 @@ fn dec_acts(b: &[u64]) -> Vec<Act> {
 }
 
 fn run_line(nums: &[u64]) -> Vec<u64> {
+    if nums.len() < 5 {
+        return vec![7];
+    }
     let mut c = Cur::new(nums);
     let (_bl, _br, _cc, _r) = (c.next(), c.next(), c.next(), c.next());
     let nt = c.next() as usize;
@@ -253,6 +259,7 @@ fn run_line(nums: &[u64]) -> Vec<u64> {
         handles: Mutex::new((0..nt).map(|_| None).collect()),
         local: kinds,
         pending: (0..nt).map(|_| AtomicBool::new(false)).collect(),
+        woken: (0..nt).map(|_| AtomicU64::new(0)).collect(),
         polls_local: AtomicU64::new(0),
         polls_rt: AtomicU64::new(0),
         open: AtomicBool::new(false),
